@@ -36,8 +36,14 @@ def L0(fn, props, harness=None, loop=False, replace=(), defines=(), expect=(), l
     exp = list(expect)
     if loop:
         exp += ['loop_invariant_base', 'loop_invariant_step', 'loop_decreases']
-    return {'id': jid or ('L0.' + fn), 'props': list(props), 'harness': harness or ('l0_%s.c' % fn), 'enforce': fn, 'replace': list(replace),
-            'loop_contracts': loop, 'defines': list(defines), 'expect': exp + ['postcondition'], 'label': label, 'timeout': timeout,
+    twin = None
+    if loop:
+        # concrete-search twin: no loop contracts, small capacity, loops unwound without unwinding assertions; a failed
+        # ensures clause there is a genuine counterexample with a concrete text; used when the loop-contract proof unit
+        # no longer compiles (a local named by an invariant disappeared) and to extract failing inputs
+        twin = {'defines': ['V_TWIN', 'MAX_CAP=12', 'MAX_DS=4'], 'cbmc_flags': ['--unwind', '10', '--no-unwinding-assertions']}
+    return {'twin': twin, 'id': jid or ('L0.' + fn), 'props': list(props), 'harness': harness or ('l0_%s.c' % fn), 'enforce': fn, 'replace': list(replace),
+            'loop_contracts': loop, 'defines': list(defines) + (['V_LOOP_' + fn] if loop else []), 'expect': exp + ['postcondition'], 'label': label, 'timeout': timeout,
             'replay': replay, 'cbmc_flags': list(cbmc_flags), 'tiers': list(tiers), 'shape': 'sizes symbolic: command-half capacity 6..4096, shared or separate layout'}
 
 
@@ -128,6 +134,12 @@ def jobs(tier):
         J.append(L1('at', st, 'sh16'))
     for st in UN_STATES:
         J.append(L1('un', st, 'sh16'))
+        J.append(L1('un', st, 'sep8'))      # halves of different capacity (command 8, event 6)
+    for st in ('READ_LOOP', 'TEST_LOOP', 'FORMAT_READ_ARGS', 'PARSE_COMMAND_ARGS'):
+        J.append(L1('at', st, 'sep8'))
+    for st in AT_STATES:
+        if st not in ('READ_LOOP', 'TEST_LOOP', 'FORMAT_READ_ARGS', 'PARSE_COMMAND_ARGS'):
+            J.append(L1('at', st, 'sep8', tiers=('thorough',)))
     for fn, call, props in API_FUNCS:
         for ring in (1, 2, 3):
             J.append(API(fn, call, props, ring=ring))
